@@ -46,7 +46,7 @@ async def real_ev(p, log, loop, EXC):
     elif k == 'skip':
         pass
     elif k == 'raise':
-        raise EXC[p[1]](1) if p[1] == 'TaskTimeout' else EXC[p[1]]()
+        raise EXC[p[1]](1) if p[1] in ('TaskTimeout', 'TimeoutCancellationError') else EXC[p[1]]()
     elif k == 'try':
         try:
             await real_ev(p[1], log, loop, EXC)
@@ -80,7 +80,8 @@ async def real_ev(p, log, loop, EXC):
                 else:
                     r = await fn(t * TICK, bodyco)
             except BaseException as e:
-                log.append([type(e).__name__, type(e).__name__ == 'TaskTimeout', t0, dl, loop.time(), kind])
+                # the coroutine form has no `expired` attribute: a TaskTimeout at (or after) the deadline is its expiry
+                log.append([type(e).__name__, type(e).__name__ == 'TaskTimeout' and loop.time() >= max(dl, t0) - 1e-9, t0, dl, loop.time(), kind])
                 raise
             else:
                 log.append(['normal', r == 'TIMEOUT', t0, dl, loop.time(), kind])
@@ -214,3 +215,33 @@ def nblocks(p):
     if k == 'try':
         return nblocks(p[1]) + nblocks(p[3])
     return 0
+
+
+def gen_foreign(rng):
+    """blocks (1-3 deep, every kind and form) around a body that finishes BEFORE every deadline by raising an exception that
+    merely looks like a timeout - a TaskTimeout / TimeoutCancellationError / UncaughtTimeoutError that comes from somewhere
+    else (another task awaited, a failed future): no deadline has passed, so every block must let it through unchanged"""
+    exc = rng.choice(['TaskTimeout', 'TaskTimeout', 'TimeoutCancellationError', 'UncaughtTimeoutError'])
+    a = 2 * rng.choice([0, 1, 2])
+    p = ['seq', ['await', a], ['raise', exc]] if a else ['raise', exc]
+    for _ in range(rng.randrange(1, 4)):
+        ab = rng.random() < 0.25
+        p = ['block', rng.choice(['timeout', 'ignore']), ab, 2 * rng.choice([6, 8, 12, 20]), p, rng.choice(['cm', 'coro'])]
+        if rng.random() < 0.25:
+            p = ['seq', p, ['await', 2]]
+        elif rng.random() < 0.2:
+            p = ['try', p, [exc], ['await', 2]]
+    return p
+
+
+def raises_foreign(p, which=('TaskTimeout', 'TimeoutCancellationError', 'UncaughtTimeoutError')):
+    k = p[0]
+    if k == 'raise':
+        return p[1] in which
+    if k == 'seq':
+        return raises_foreign(p[1], which) or raises_foreign(p[2], which)
+    if k == 'block':
+        return raises_foreign(p[4], which)
+    if k == 'try':
+        return raises_foreign(p[1], which) or raises_foreign(p[3], which)
+    return False
